@@ -114,6 +114,15 @@ type connInfo struct {
 	admitAt          time.Duration
 	conn, disc       uint64 // Connected / Disconnected notification (0 = not seen)
 	connAt, discAt   time.Duration
+	closedAtAdmit    bool // IsClosed() already when the swarm asked the gater to admit it
+}
+
+// action: something that legitimately ends connections (a close by the harness on either side, or the refusal of
+// an inbound connection by a node's scripted gater, which the dialling side sees as a connection that dies at once)
+type action struct {
+	node  int
+	stamp uint64
+	at    time.Duration
 }
 
 // firstSeen is the earliest instant at which the connection is known to have existed
@@ -197,6 +206,9 @@ type world struct {
 	ops      []*opRec
 	probed   map[string]bool
 
+	closes   []action // closes issued by the harness (either node)
+	refusals []action // inbound connections refused by a node's scripted gater
+
 	// race stratum
 	gate        chan struct{}
 	gateArmed   bool
@@ -206,6 +218,43 @@ type world struct {
 	hpStreams  []hpStream
 	hpConnects []hpConnect
 	wrapped    bool // hole punch services built by the harness around a recording host wrapper
+}
+
+func (w *world) closing(node int) {
+	w.closes = append(w.closes, action{node: node, stamp: simrt.Stamp(), at: simrt.Now()})
+}
+
+// excused: the end of connection ci (in view v) can be explained by something the harness did — a close issued on
+// either side while the connection existed, or the PEER's gater refusing an inbound connection around the time this
+// node's dial completed (up to 5 s before this node saw the connection: handshake completion differs by round trips
+// and retransmissions). A connection that ends at the instant it appears with no such cause never really existed.
+func (w *world) excused(v *view, ci *connInfo) bool {
+	_, firstAt := ci.firstSeen()
+	end := ci.discAt
+	if ci.disc == 0 {
+		return true
+	}
+	for _, a := range w.closes {
+		from := firstAt
+		if a.node != v.node {
+			from -= 5 * time.Second // the other side may close before this side has finished setting the connection up
+		}
+		if a.at >= from && a.at <= end {
+			return true
+		}
+	}
+	for _, a := range w.refusals {
+		if a.node != v.node && a.at >= firstAt-5*time.Second && a.at <= end {
+			return true
+		}
+	}
+	return false
+}
+
+// phantom: a direct connection that ended at the very instant it appeared and whose end nothing explains
+func (w *world) phantom(v *view, ci *connInfo) bool {
+	_, firstAt := ci.firstSeen()
+	return !ci.relayed && ci.disc != 0 && ci.discAt == firstAt && !w.excused(v, ci)
 }
 
 func (w *world) openGate() {
@@ -255,17 +304,41 @@ func (v *view) directOverlaps(from, to uint64) bool {
 }
 
 // recording gater: InterceptUpgraded is the earliest public observation point of a new connection
-type recGater struct{ v *view }
+//
+// QUIC stratum: it may additionally refuse the peer's INBOUND direct connections (never outbound dials, never
+// relayed connections) at InterceptAccept or at InterceptSecured — an inbound allow-list that does not name the peer.
+type recGater struct {
+	v       *view
+	refuse  int    // 0 never, 1 at InterceptAccept, 2 at InterceptSecured(DirInbound)
+	armed   bool   // refusing now (from the start, or switched on when the first relayed connection to the peer is admitted)
+	onRelay bool   // switch on at the first relayed connection
+	peerIP  string // the peer's IP (InterceptAccept sees addresses only)
+}
 
-func (g *recGater) InterceptPeerDial(peer.ID) bool               { return true }
-func (g *recGater) InterceptAddrDial(peer.ID, ma.Multiaddr) bool { return true }
-func (g *recGater) InterceptAccept(network.ConnMultiaddrs) bool  { return true }
-func (g *recGater) InterceptSecured(network.Direction, peer.ID, network.ConnMultiaddrs) bool {
+func (g *recGater) refused(where int, c network.ConnMultiaddrs) bool {
+	if g.refuse != where || !g.armed || isRelayAddr(c.RemoteMultiaddr()) {
+		return false
+	}
+	if ip, err := manet.ToIP(c.RemoteMultiaddr()); err != nil || ip.String() != g.peerIP {
+		return false
+	}
+	g.v.w.refusals = append(g.v.w.refusals, action{node: g.v.node, stamp: simrt.Stamp(), at: simrt.Now()})
 	return true
+}
+
+func (g *recGater) InterceptPeerDial(peer.ID) bool                { return true }
+func (g *recGater) InterceptAddrDial(peer.ID, ma.Multiaddr) bool  { return true }
+func (g *recGater) InterceptAccept(c network.ConnMultiaddrs) bool { return !g.refused(1, c) }
+func (g *recGater) InterceptSecured(dir network.Direction, p peer.ID, c network.ConnMultiaddrs) bool {
+	return !(dir == network.DirInbound && p == g.v.other && g.refused(2, c))
 }
 func (g *recGater) InterceptUpgraded(c network.Conn) (bool, control.DisconnectReason) {
 	if ci := g.v.info(c); ci != nil && ci.admit == 0 {
 		ci.admit, ci.admitAt = simrt.Stamp(), simrt.Now()
+		ci.closedAtAdmit = c.IsClosed()
+		if ci.relayed && g.onRelay {
+			g.armed = true
+		}
 		w := g.v.w
 		w.activity++
 		if g.v.node == 0 && w.gateArmed && !ci.limited && !ci.relayed {
@@ -292,6 +365,7 @@ func (n *recNotifiee) Connected(_ network.Network, c network.Conn) {
 		}
 		if n.v.closeNext && !ci.limited && !ci.relayed {
 			n.v.closeNext = false
+			n.v.w.closing(n.v.node)
 			c.Close()
 		}
 	}
@@ -686,11 +760,18 @@ func runWorld(t *testing.T, tape *simrt.Tape, g simrt.Gen, mode int) *common.Out
 		nEnvs = g.Range(0, 1)
 	}
 	var udpCfg simnet.UDPConfig
+	var gaterRefuse [2]int
+	var gaterOnRelay [2]bool
 	if quic {
 		// faults of the UDP wire in part of the runs (they stop before the closing phase)
 		udpCfg.DropPermille = []int{0, 0, 50, 150}[g.Int(4)]
 		udpCfg.DupPermille = []int{0, 50}[g.Weighted(2, 1)]
 		udpCfg.Latencies = [][]time.Duration{nil, {0, 5 * time.Millisecond, 40 * time.Millisecond}, {0, 20 * time.Millisecond, 250 * time.Millisecond}}[g.Int(3)]
+		// scripted inbound refusal by the nodes' connection gaters (0 none, 1 at InterceptAccept, 2 at InterceptSecured),
+		// from the start or switched on when the first relayed connection to the peer is admitted
+		for i := range gaterRefuse {
+			gaterRefuse[i], gaterOnRelay[i] = g.Weighted(4, 1, 1), g.Bool()
+		}
 	}
 	callers := make([][]opSpec, nCallers)
 	for c := range callers {
@@ -768,6 +849,7 @@ func runWorld(t *testing.T, tape *simrt.Tape, g simrt.Gen, mode int) *common.Out
 	} else {
 		if quic {
 			o.Logf("QUIC stratum (A and B listen on QUIC only; NAT = UDP filter): udp drop=%d dup=%d latencies=%v", udpCfg.DropPermille, udpCfg.DupPermille, udpCfg.Latencies)
+			o.Logf(" gaters refuse the peer's inbound direct connections: A=%d B=%d (0 never, 1 at Accept, 2 at Secured) only-after-the-relayed-connection: A=%v B=%v", gaterRefuse[0], gaterRefuse[1], gaterOnRelay[0], gaterOnRelay[1])
 		}
 		o.Logf("layer B: relay=%d(0 default limits,1 15s limit,2 unlimited) firewall A=%s B=%s latencies=%v directDialTimeout=%v A-knows-B's-direct-address=%v relay-address-advertised=%v wrapped-service=%v security=%s",
 			relayMode, natNames[natA], natNames[natB], latencies, directDialTimeout, knowsDirect, advertiseRelayAddr, w.wrapped, secu)
@@ -851,14 +933,17 @@ func runWorld(t *testing.T, tape *simrt.Tape, g simrt.Gen, mode int) *common.Out
 			}
 			return ho
 		}
-		B, err := simhost.New(n, simhost.Opts{Key: simhost.DetKey(2), IP: ipB, Port: 4001, Security: secu, WithHost: true, HostOpts: mkOpts(1), Gater: &recGater{w.v[1]},
+		mkGater := func(node int, peerIP string) *recGater {
+			return &recGater{v: w.v[node], refuse: gaterRefuse[node], onRelay: gaterOnRelay[node], armed: gaterRefuse[node] != 0 && !gaterOnRelay[node], peerIP: peerIP}
+		}
+		B, err := simhost.New(n, simhost.Opts{Key: simhost.DetKey(2), IP: ipB, Port: 4001, Security: secu, WithHost: true, HostOpts: mkOpts(1), Gater: mkGater(1, ipA),
 			QUIC: quic, NoTCPListen: quic})
 		if err != nil {
 			o.Trouble = "host B: " + err.Error()
 			return
 		}
 		defer B.Close()
-		A, err := simhost.New(n, simhost.Opts{Key: simhost.DetKey(1), IP: ipA, Port: 4001, Security: secu, WithHost: true, HostOpts: mkOpts(0), Bus: bus, Gater: &recGater{w.v[0]},
+		A, err := simhost.New(n, simhost.Opts{Key: simhost.DetKey(1), IP: ipA, Port: 4001, Security: secu, WithHost: true, HostOpts: mkOpts(0), Bus: bus, Gater: mkGater(0, ipB),
 			SwarmOpts: []swarm.Option{swarm.WithMultiaddrResolver(dns)}, QUIC: quic, NoTCPListen: quic})
 		if err != nil {
 			o.Trouble = "host A: " + err.Error()
@@ -1088,6 +1173,7 @@ func runWorld(t *testing.T, tape *simrt.Tape, g simrt.Gen, mode int) *common.Out
 						serr = with(5*time.Second, func(ctx context.Context) error {
 							c, err := B.Swarm.DialPeer(network.WithForceDirectDial(ctx, "c12"), A.ID)
 							if err == nil && st.kind == eFlapInbound {
+								w.closing(1)
 								c.Close()
 							}
 							return err
@@ -1099,6 +1185,7 @@ func runWorld(t *testing.T, tape *simrt.Tape, g simrt.Gen, mode int) *common.Out
 						serr = with(5*time.Second, func(ctx context.Context) error {
 							c, err := A.Swarm.DialPeer(network.WithForceDirectDial(ctx, "c12"), B.ID)
 							if err == nil && st.kind == eFlapOutbound {
+								w.closing(0)
 								c.Close()
 							}
 							return err
@@ -1106,6 +1193,7 @@ func runWorld(t *testing.T, tape *simrt.Tape, g simrt.Gen, mode int) *common.Out
 					case eCloseDirectAtA, eCloseLimitedAtA:
 						for _, c := range A.Swarm.ConnsToPeer(B.ID) {
 							if isRelayAddr(c.RemoteMultiaddr()) == (st.kind == eCloseLimitedAtA) {
+								w.closing(0)
 								c.Close()
 								if st.kind == eCloseLimitedAtA {
 									o.Fault("relayed-conn-closed-locally")
@@ -1117,6 +1205,7 @@ func runWorld(t *testing.T, tape *simrt.Tape, g simrt.Gen, mode int) *common.Out
 					case eCloseDirectAtB:
 						for _, c := range B.Swarm.ConnsToPeer(A.ID) {
 							if !isRelayAddr(c.RemoteMultiaddr()) {
+								w.closing(1)
 								c.Close()
 								o.Fault("direct-conn-closed-by-peer")
 							}
@@ -1125,11 +1214,13 @@ func runWorld(t *testing.T, tape *simrt.Tape, g simrt.Gen, mode int) *common.Out
 						if len(A.Swarm.ConnsToPeer(B.ID)) > 0 {
 							o.Fault("all-conns-closed-locally")
 						}
+						w.closing(0)
 						A.Swarm.ClosePeer(B.ID)
 					case eArmCloseInConnected:
 						w.v[0].closeNext = true
 					case eBReconnectsViaRelay:
 						if aReserves {
+							w.closing(1)
 							B.Swarm.ClosePeer(A.ID)
 							n.SetRefused(aDirect, true)
 							fw.closed[ipA] = true
@@ -1155,6 +1246,7 @@ func runWorld(t *testing.T, tape *simrt.Tape, g simrt.Gen, mode int) *common.Out
 			// back to "limited only"
 			for _, c := range A.Swarm.ConnsToPeer(B.ID) {
 				if !isRelayAddr(c.RemoteMultiaddr()) {
+					w.closing(0)
 					c.Close()
 				}
 			}
@@ -1245,6 +1337,7 @@ func runWorld(t *testing.T, tape *simrt.Tape, g simrt.Gen, mode int) *common.Out
 		takeSample()
 		for _, c := range A.Swarm.ConnsToPeer(B.ID) {
 			if !isRelayAddr(c.RemoteMultiaddr()) {
+				w.closing(0)
 				c.Close()
 			}
 		}
@@ -1267,9 +1360,13 @@ func runWorld(t *testing.T, tape *simrt.Tape, g simrt.Gen, mode int) *common.Out
 		for i := 0; i < fw.dropped && i < 1; i++ {
 			o.Fault("datagram-dropped-by-nat")
 		}
+		for i := 0; i < len(w.refusals) && i < 1; i++ {
+			o.Fault("inbound-conn-refused-by-gater")
+		}
 		if fw.punches > 0 {
 			w.probe("quic-transport-hole-punch-packets")
 		}
+		w.closing(0) // the deferred host closes end whatever is still open
 		finished = true
 	})
 	o.Sched = res
@@ -1302,6 +1399,11 @@ func runWorld(t *testing.T, tape *simrt.Tape, g simrt.Gen, mode int) *common.Out
 			}
 			if ci := v.conns[id]; i == 0 && ci.limited && ci.dir == network.DirInbound {
 				w.probe("inbound-limited-conn-on-A")
+			}
+			if w.phantom(v, v.conns[id]) {
+				// not a violation by itself; on the unchanged tree this should not happen at all
+				w.probe("conn-ended-at-once-unexplained")
+				o.Logf("%c's connection %s ended at the instant it appeared and nothing explains it", "AB"[i], id)
 			}
 		}
 	}
@@ -1400,7 +1502,7 @@ func (w *world) judgeA(sig *strings.Builder, postDirect string) {
 	v := w.v[0]
 	for _, id := range v.order {
 		ci := v.conns[id]
-		o.Logf("conn %s limited=%v relayed=%v dir=%v admitted=%d(%v) Connected=%d Disconnected=%d(%v)", id, ci.limited, ci.relayed, ci.dir, ci.admit, ci.admitAt, ci.conn, ci.disc, ci.discAt)
+		o.Logf("conn %s limited=%v relayed=%v dir=%v admitted=%d(%v) Connected=%d Disconnected=%d(%v) closed-at-admission=%v unexplained-instant-end=%v", id, ci.limited, ci.relayed, ci.dir, ci.admit, ci.admitAt, ci.conn, ci.disc, ci.discAt, ci.closedAtAdmit, w.phantom(v, ci))
 		fmt.Fprintf(sig, "c:%v%v%v%v;", ci.limited, ci.relayed, ci.dir, ci.disc != 0)
 		if ci.limited && !ci.relayed {
 			o.Violate("C12/limited-flag-on-direct-address", "connection %s is Limited but its remote address is not a relay address", id)
@@ -1444,6 +1546,19 @@ func (w *world) judgeA(sig *strings.Builder, postDirect string) {
 		if sp.api == apiHostConnect && sp.force && r.err == nil && !v.directOverlaps(r.inv, r.ret) {
 			o.Violate("C12/force-direct-connect-without-direct-conn", "Host.Connect with force-direct succeeded during [%d,%d] although no direct connection to the peer was open in that interval", r.inv, r.ret)
 		}
+		// ... and what it returns / reports must be a connection that really existed: not one that the swarm was handed
+		// already dead (it ends at the instant it appears, and nothing the harness or the peer's gater did explains that)
+		if sp.force && r.err == nil && (sp.api == apiSwarmDialPeer || sp.api == apiHostConnect) {
+			real := false
+			for _, id := range v.order {
+				if ci := v.conns[id]; !ci.relayed && !ci.limited && ci.overlaps(r.inv, r.ret) && !w.phantom(v, ci) && (sp.api == apiHostConnect || id == r.connID) {
+					real = true
+				}
+			}
+			if !real && !r.relayed && !r.limited {
+				o.Violate("C12/force-direct-success-with-dead-conn/"+api, "%s with force-direct succeeded during [%d,%d] (conn %s) but the only direct connection involved ended at the instant it appeared, unexplained: no direct connection existed", api, r.inv, r.ret, r.connID)
+			}
+		}
 		// (3) timing: every call returns by its own deadline; a pure wait (no-dial) for a direct
 		// connection that never shows up ends by the dial-peer timeout
 		lim := sp.timeout
@@ -1472,6 +1587,17 @@ func (w *world) judgeA(sig *strings.Builder, postDirect string) {
 			// without any direct connection having been admitted is not "waiting".
 			if r.kind == "limited-conn" && !directAdmittedIn(r.inv, r.ret) {
 				o.Violate("C12/gave-up-without-waiting", "%v returned ErrLimitedConn after %v although no direct connection was admitted during the call", sp, r.retAt-r.invAt)
+			} else if r.kind == "limited-conn" {
+				// ... and that connection must have existed: a waiter woken by a connection that was dead on arrival was woken by nothing
+				real := false
+				for _, id := range v.order {
+					if ci := v.conns[id]; !ci.limited && ci.admit > r.inv && ci.admit < r.ret && !w.phantom(v, ci) {
+						real = true
+					}
+				}
+				if !real {
+					o.Violate("C12/waiter-woken-without-direct-conn", "%v returned ErrLimitedConn after %v: every direct connection admitted during the call ended at the instant it appeared, unexplained (no direct connection ever existed)", sp, r.retAt-r.invAt)
+				}
 			}
 			// a direct connection that is open during the whole call must be used (zero virtual time passes
 			// between a connection becoming unusable and its Disconnected notification)
@@ -1593,7 +1719,7 @@ func (w *world) judgeB(sig *strings.Builder) {
 			for _, id := range v.order {
 				ci := v.conns[id]
 				first, firstAt := ci.firstSeen()
-				if !ci.relayed && first != 0 && first < e.stamp && firstAt <= e.at && (ci.disc == 0 || ci.discAt >= e.at-e.elapsed) {
+				if !ci.relayed && first != 0 && first < e.stamp && firstAt <= e.at && (ci.disc == 0 || ci.discAt >= e.at-e.elapsed) && !w.phantom(v, ci) {
 					return true
 				}
 			}
